@@ -1,16 +1,28 @@
 """C16 — validation strategies only move examples between the two sets.
 
 Lean: list models of holdout_validation::init and dss::init/shake/close with explicit draws
-(Vita/C16/Model.lean), theorems in Vita/C16/Props.lean.  Tie: relational – the harness drives the
-real strategies on data sets with unique row ids, the compiled Lean driver decides the step relation
-for every observed call (and, for hold-out, reconstructs the Fisher–Yates draws and compares with the
-model function exactly); the harness carries its own multiset oracle.
+(Vita/C16/Model.lean); the container programs of those functions are EXTRACTED from the clang AST on
+every run (tools/translate_validation.py -> Vita/C16/Gen.lean), proved equal to the tables the model
+stands for (`decide`) whose meaning on an abstract machine with 64/32-bit wrap-around is proved to be the
+list model (Bridge.lean); the call protocol of search::run / evolution::run is a transition system driven
+by the extracted token tables (Protocol.lean).  Theorems in Vita/C16/Props.lean.
+
+Tie on real executions, every run:
+  * harness c16_validation drives the strategies directly (unique row ids, counters up to the limits of
+    their types), harness c16_search monitors real `src_search` sessions (every strategy call through a
+    decorator, or both frames at every after_generation callback and around every run());
+  * the compiled Lean driver decides the step relation of every observed call, the relation between
+    consecutive observations, and compares the observed call sequence with the model's schedule;
+  * both harnesses carry their own multiset oracle.
 """
 import json
+import os
+import re
 
 from vlib import common as C
 
 
+# ---------------------------------------------------------------------------------------------
 def gen_requests(rng, tier):
     reqs = []
     nh, nd = (420, 260) if tier == "quick" else (12000, 8000)
@@ -47,6 +59,35 @@ def gen_requests(rng, tier):
     return reqs
 
 
+def gen_search_requests(rng, tier):
+    """sessions of real src_search runs: search <mode> <strat> <n> <param> <preva> <gens> <inds> <vseed> <k1> [<k2>…]"""
+    reqs = []
+    ns = 120 if tier == "quick" else 1500
+    for k in range(ns):
+        mode = "spy" if rng.below(2) else "real"
+        strat = rng.choice(["dss", "dss", "dss", "holdout", "holdout", "asis"])
+        n = rng.choice([2, 3, 4, 5, 8, 13, 30, 60]) if rng.below(3) else rng.between(2, 41)
+        if strat == "dss":
+            param = rng.between(1, 5)
+        elif strat == "holdout":
+            param = rng.choice([0, 1, 50, 90, 99]) if rng.below(4) == 0 else rng.between(0, 100)
+        else:
+            param = 0
+        preva = rng.between(1, 4) if (strat != "dss" and rng.below(4) == 0) else 0
+        gens = rng.choice([1, 1, 2, 3, 5, 7])      # env.generations (0 would mean auto-tune: 100)
+        calls = [[1], [2], [3], [1, 1], [2, 1], [1, 0, 2]][rng.below(6)]
+        if mode == "real" and strat != "asis" and rng.below(6) == 0:
+            strat += "-unset"       # the parameter is left to src_search::tune_parameters
+            if strat.startswith("holdout"):
+                n = rng.choice([n, 100, 120, 150])
+        if n > 60:
+            gens, calls = min(gens, 2), [1]
+        reqs.append("search %s %s %d %d %d %d %d %d %s" % (mode, strat, n, param, preva, gens, rng.between(6, 13),
+                                                           rng.below(1 << 31), " ".join(map(str, calls))))
+    return reqs
+
+
+# ---------------------------------------------------------------------------------------------
 def corrupt(step, rng):
     """negative control: damage an observed step so that the property fails on it"""
     f = step.split(" | ")
@@ -68,9 +109,89 @@ def corrupt(step, rng):
     return " | ".join(f)
 
 
+def ids_only(frame):
+    return " ".join(w.split(":")[0] + ":0:0" for w in frame.split())
+
+
+def session_lines(req, ans):
+    """driver lines of one monitored search session.
+    Returns (steps [(text, oracle)], extra driver lines [(text, what)], problems [str])"""
+    t = req.split()
+    mode, strat = t[1], t[2].split("-")[0]
+    param = int(t[4])
+    items = ans.split(" ;; ")
+    steps, extra, problems = [], [], []
+    env = [x for x in items if x.startswith("P ")]
+    if env:
+        pv, dv = env[-1].split()[1:3]
+        if strat == "holdout":
+            param = int(pv)
+        elif strat == "dss":
+            param = int(dv)
+        if param < 0 and strat != "asis":
+            problems.append("the search ended with the %s parameter still unset (request `%s`): the strategy ran on "
+                            "the `empty` value of the facultative" % (strat, req))
+    if mode == "spy":
+        toks, prev, k = [], None, None
+        for it in items:
+            body, _, orc = it.partition(" ## ")
+            h = body.split(" | ")[0].split()
+            if h[0] == "R":
+                toks, k = [], int(h[2])
+            elif h[0] == "Z":
+                extra.append(("P %d | %s" % (k, " ".join(toks)), "call sequence of run(%d)" % k))
+            elif h[0] == "B":
+                toks.append("b" + h[1])
+            elif h[0] in ("H", "D", "A"):
+                f = body.split(" | ")
+                call = h[1] if h[0] != "H" else "init"
+                arg = h[2] if h[0] in ("H", "A") else h[-1]
+                toks.append({"init": "i", "shake": "s", "close": "c"}[call] + arg)
+                steps.append((body, orc.strip()))
+                if prev is not None:       # what happened between two strategy calls: evaluations only
+                    a, b, c, d = prev[0], prev[1], f[1], f[2]
+                    if h[0] == "H" or prev[2] == "H":
+                        a, b, c, d = ids_only(a), ids_only(b), ids_only(c), ids_only(d)
+                    extra.append(("E | %s | %s | %s | %s" % (a, b, c, d), "between two strategy calls"))
+                prev = (f[3], f[4], h[0])
+        return steps, extra, problems
+    # ---- real mode: consecutive observations -----------------------------------------------
+    obs = []
+    for it in items:
+        body, _, orc = it.partition(" ## ")
+        if body.startswith("O "):
+            f = body.split(" | ")
+            obs.append((f[0].split()[1], f[1], f[2], orc.strip(), body))
+    for (l1, tr1, va1, _, _), (l2, tr2, va2, _, _) in zip(obs, obs[1:]):
+        m1 = re.match(r"(start|cb|ret)(\d+)\.(\d+)", l1)
+        m2 = re.match(r"(start|cb|ret)(\d+)\.(\d+)", l2)
+        k1, k2, g2 = m1.group(1), m2.group(1), int(m2.group(3))
+        if k2 == "cb" and g2 == 0:
+            kind = "first" if k1 == "start" else "newrun"
+        elif k2 == "cb":
+            kind = "gen"
+        elif k2 == "ret" and k1 == "cb":
+            kind = "end"
+        else:
+            kind = "idle"
+        extra.append(("X %s %d %s %d | %s | %s | %s | %s" % (strat, max(param, 0), kind, g2, tr1, va1, tr2, va2),
+                      "%s -> %s" % (l1, l2)))
+    for (l, tr, va, orc, body) in obs:
+        steps.append((body, orc))
+    return steps, extra, problems
+
+
+# ---------------------------------------------------------------------------------------------
 def run(chk, replay=None):
     rng = C.SplitMix(chk.seed)
     broken = []
+
+    # ---- the model is regenerated from the current source -------------------------------------
+    rc, so, se = C.sh(["python3", os.path.join(C.ROOT, "tools", "translate_validation.py")])
+    chk.cov["translator"] = (so or se).strip()[-300:]
+    if rc != 0:
+        broken.append("tools/translate_validation.py could not extract the container programs of the validation "
+                      "strategies from the current source: " + (so + se).strip()[-600:])
 
     ok, msg = chk.prove("Vita.C16.Props", ["Vita.C16.Props", "c16_driver"])
     drv_ok = True
@@ -81,26 +202,39 @@ def run(chk, replay=None):
             broken.append("c16_driver does not build: " + C.lean_errors(out))
 
     exe = C.build_harness("c16_validation", "asan")
+    exe_s = C.build_harness("c16_search", "asan")
 
-    corpus = []
-    import os
+    corpus, corpus_s = [], []
     cdir = os.path.join(C.ROOT, "corpus", "C16")
     if os.path.isdir(cdir):
         for f in sorted(os.listdir(cdir)):
-            corpus += [ln.strip() for ln in open(os.path.join(cdir, f)) if ln.strip() and not ln.startswith("#")]
+            for ln in open(os.path.join(cdir, f)):
+                ln = ln.strip()
+                if ln and not ln.startswith("#"):
+                    (corpus_s if ln.startswith("search ") else corpus).append(ln)
     if replay:
-        reqs = [json.load(open(replay))["replay"]["request"]]
+        r = json.load(open(replay))["replay"]
+        one = r.get("request", "")
+        reqs = [one] if one and not one.startswith("search ") else []
+        sreqs = [one] if one.startswith("search ") else []
     else:
         reqs = corpus + gen_requests(rng, chk.tier)
+        sreqs = corpus_s + gen_search_requests(rng, chk.tier)
 
-    answers, deaths = C.run_lines(exe, reqs, timeout=600)
+    answers, deaths = C.run_lines(exe, reqs, timeout=900) if reqs else ([], [])
     for idx, rc, se in deaths:
         chk.violation("harness died (rc=%d, sanitizer report or crash) on request `%s`\n%s"
                       % (rc, reqs[idx], se[-1500:]),
                       {"request": reqs[idx]}, tags={"kind": reqs[idx].split()[0], "clause": "died"})
+    sanswers, sdeaths = C.run_lines(exe_s, sreqs, timeout=1500) if sreqs else ([], [])
+    for idx, rc, se in sdeaths:
+        chk.violation("a monitored src_search session died (rc=%d, sanitizer report or crash) on request `%s`\n%s"
+                      % (rc, sreqs[idx], se[-1500:]),
+                      {"request": sreqs[idx]}, tags={"kind": "search", "clause": "died",
+                                                     "call": " ".join(sreqs[idx].split()[1:3])})
 
     # ---- split the answers into steps, feed the driver ------------------------------------
-    steps = []      # (request index, step text, oracle)
+    steps = []      # (request text, step text, oracle)
     for i, a in enumerate(answers):
         if a.startswith(("died", "skipped")):
             continue
@@ -109,16 +243,44 @@ def run(chk, replay=None):
             continue
         for part in a.split(" ;; "):
             st, _, orc = part.partition(" ## ")
-            steps.append((i, st, orc.strip()))
+            steps.append((reqs[i], st, orc.strip()))
+    extras = []     # (request text, driver line, what)
+    for i, a in enumerate(sanswers):
+        if a.startswith(("died", "skipped")):
+            continue
+        if a.startswith(("bad-request", "exception")):
+            broken.append("search harness answered `%s` to `%s`" % (a[:200], sreqs[i]))
+            continue
+        st, ex, prob = session_lines(sreqs[i], a)
+        steps += [(sreqs[i], s, o) for s, o in st]
+        extras += [(sreqs[i], l, w) for l, w in ex]
+        for p in prob:
+            chk.violation(p, {"request": sreqs[i]}, tags={"kind": "search", "clause": "unset-parameter",
+                                                          "call": " ".join(sreqs[i].split()[1:3])})
+        chk.count("session:%s %s" % tuple(sreqs[i].split()[1:3]))
 
-    dlines = [s for _, s, _ in steps]
+    dsteps = [(r, s, o) for r, s, o in steps if not s.startswith("O ")]
+    dlines = [s for _, s, _ in dsteps] + [l for _, l, _ in extras]
     controls = []
-    for k in range(0, len(steps), 7):
-        c = corrupt(steps[k][1], rng)
+    for k in range(0, len(dsteps), 7):
+        c = corrupt(dsteps[k][1], rng)
         if c is not None:
             controls.append(c)
+    for k in range(0, len(extras), 5):
+        l = extras[k][1]
+        if l.startswith("X "):
+            c = corrupt(l, rng)
+            if c is not None:
+                controls.append(c)
+        elif l.startswith("P ") and len(l.split()) > 6:
+            w = l.split()
+            j = 3 + rng.below(len(w) - 4)
+            if w[j] != w[j + 1]:
+                w[j], w[j + 1] = w[j + 1], w[j]          # two calls in the wrong order
+                controls.append(" ".join(w))
     malformed = ["", "H 3", "H x 0 | 1 | 2 | 3 | 4", "D init 0 | 1:1 |  |  |  | 0 1 1", "Q 1 2",
-                 "D shake 0 | 1:1:0 |  | 1:1:0 |  | 0 0 0", "H 10 0 | 1 2 | | 1 |"]
+                 "D shake 0 | 1:1:0 |  | 1:1:0 |  | 0 0 0", "H 10 0 | 1 2 | | 1 |", "P 1 | i0 q1", "X dss 2 gen | | | |",
+                 "A init 0 | 1:0:0 |  | 1:0:0 |  | 1", "E | 1:0:0 |  | 2:0:0 |"]
     tsmax = 20000 if chk.tier == "quick" else 400000
     tail = controls + malformed + ["T 2 %d" % tsmax]
     have_driver = drv_ok
@@ -126,47 +288,89 @@ def run(chk, replay=None):
 
     nexact = nrel = nfb = 0
     found = []          # (size, what, replay, tags) – reported smallest first
-    if True:
-        if len(dout) != len(dlines) + len(tail):
-            broken.append("driver answered %d lines for %d requests" % (len(dout), len(dlines) + len(tail)))
-        for (i, st, orc), d in zip(steps, dout):
-            head = st.split(" | ")[0].split()
-            kind = "holdout" if head[0] == "H" else "dss"
-            chk.seen(st)
-            chk.count("call:" + " ".join(head[:2]) if kind == "dss" else "call:H run%s" % ("0" if head[2] == "0" else ">0"))
+    if len(dout) != len(dlines) + len(tail):
+        broken.append("driver answered %d lines for %d requests" % (len(dout), len(dlines) + len(tail)))
+    # observations of monitored searches: only the harness oracle speaks (the driver sees them pairwise)
+    for req, st, orc in steps:
+        if st.startswith("O ") and orc != "fine":
             n_ex = sum(len(f.split()) for f in st.split(" | ")[1:3])
-            chk.count("examples:%s" % ("2-9" if n_ex < 10 else "10-99" if n_ex < 100 else "100+"))
-            tags = {"kind": kind, "clause": orc, "call": " ".join(head[:2])}
+            found.append((n_ex, "search: at observation `%s` of a monitored src_search session the two frames do not "
+                          "hold the loaded examples each once (%s) – request `%s`; observed: %s"
+                          % (st.split(" | ")[0], orc, req, st[:600]),
+                          {"request": req, "step": st, "oracle": orc},
+                          {"kind": "search", "clause": orc, "call": " ".join(req.split()[1:3])}))
+    for (req, st, orc), d in zip(dsteps, dout):
+        head = st.split(" | ")[0].split()
+        kind = "holdout" if head[0] == "H" else "dss" if head[0] == "D" else "as-is"
+        src = "search" if req.startswith("search ") else "direct"
+        chk.seen(st)
+        chk.count("call:%s %s" % (src, " ".join(head[:2]) if kind != "holdout" else "H run%s" % ("0" if head[2] == "0" else ">0")))
+        n_ex = sum(len(f.split()) for f in st.split(" | ")[1:3])
+        chk.count("examples:%s" % ("0-1" if n_ex < 2 else "2-9" if n_ex < 10 else "10-99" if n_ex < 100 else "100+"))
+        if kind == "dss" and re.search(r":\d{19,}\b|:\d{7,}:", st):
+            chk.count("counters near the limits of their types")
+        tags = {"kind": kind if src == "direct" else "search", "clause": orc, "call": " ".join(head[:2])}
+        if orc != "fine":
+            found.append((n_ex, "%s: the strategy call `%s` broke the property (%s) – request `%s`; observed "
+                          "step: %s" % (kind, " ".join(head), orc, req, st[:600]),
+                          {"request": req, "step": st, "oracle": orc, "driver": d}, tags))
+        if d.startswith("ok"):
+            if d == "ok exact":
+                nexact += 1
+            elif d == "ok rel":
+                nrel += 1
+            elif d == "ok fb":
+                nfb += 1
             if orc != "fine":
-                found.append((n_ex, "%s: the strategy call `%s` broke the property (%s) – request `%s`; observed "
-                              "step: %s" % (kind, " ".join(head), orc, reqs[i], st[:600]),
-                              {"request": reqs[i], "step": st, "oracle": orc, "driver": d}, tags))
-            if d.startswith("ok"):
-                if d == "ok exact":
-                    nexact += 1
-                elif d == "ok rel":
-                    nrel += 1
-                elif d == "ok fb":
-                    nfb += 1
-                if orc != "fine":
-                    broken.append("harness oracle reports `%s` but the Lean step relation accepts: %s" % (orc, st[:300]))
-            elif d != "n/a":
-                if orc == "fine" and len(broken) < 5:
-                    # the model's relation rejects a call on which the property itself (oracle) holds: the model
-                    # no longer describes the code – reported without a failing input
-                    broken.append("%s: observed call `%s` is rejected by the Lean step relation (%s) although the "
-                                  "property holds on it – request `%s`; step: %s"
-                                  % (kind, " ".join(head), d, reqs[i], st[:500]))
-            if len(chk.cov["samples"]) < 4 and n_ex <= 8:
-                chk.sample({"request": reqs[i], "step": st, "oracle": orc, "driver": d})
-        for n_ex, what, rep, tags in sorted(found, key=lambda x: (x[0], x[1])):
-            chk.violation(what, rep, tags=tags)
+                broken.append("harness oracle reports `%s` but the Lean step relation accepts: %s" % (orc, st[:300]))
+        elif d != "n/a":
+            if orc == "fine" and len(broken) < 5:
+                # the model's relation rejects a call on which the property itself (oracle) holds: the model
+                # no longer describes the code – reported without a failing input
+                broken.append("%s: observed call `%s` is rejected by the Lean step relation (%s) although the "
+                              "property holds on it – request `%s`; step: %s"
+                              % (kind, " ".join(head), d, req, st[:500]))
+        if len(chk.cov["samples"]) < 4 and n_ex <= 8:
+            chk.sample({"request": req, "step": st, "oracle": orc, "driver": d})
+    base = len(dsteps)
+    nobs = nproto = 0
+    for (req, line, what), d in zip(extras, dout[base:base + len(extras)]):
+        chk.seen(line)
+        k = line.split()[0]
+        chk.count("search:%s" % ({"X": "observation pair " + " ".join(line.split()[1:4:2]), "P": "call sequence",
+                                  "E": "evaluations between calls"}[k]))
+        nobs += k == "X"
+        nproto += k == "P"
+        if d.startswith("ok") or d == "n/a":
+            continue
+        # a monitored search left the behaviour the protocol model predicts.  When the harness oracle also saw a
+        # broken clause the concrete violation is already listed; otherwise look at what exactly is wrong
+        if k == "X":
+            f = line.split(" | ")
+            pre = sorted(w.split(":")[0] for w in (f[1] + " " + f[2]).split())
+            post = sorted(w.split(":")[0] for w in (f[3] + " " + f[4]).split())
+            strat, kind2 = line.split()[1], line.split()[3]
+            emp = kind2 in ("first", "newrun", "gen") and strat == "dss" and (not f[3].strip() or not f[4].strip())
+            if pre != post or emp:
+                found.append((len(pre), "search: between the observations %s of a monitored src_search session the "
+                              "examples changed (%s) – request `%s`; %s" % (what, d, req, line[:600]),
+                              {"request": req, "pair": line, "driver": d},
+                              {"kind": "search", "clause": "lost-dup" if pre != post else "empty",
+                               "call": " ".join(req.split()[1:3])}))
+                continue
+        if len(broken) < 8:
+            broken.append("search: %s of a monitored src_search session is not what the protocol model predicts (%s) – "
+                          "request `%s`; %s" % (what, d, req, line[:500]))
+    for n_ex, what, rep, tags in sorted(found, key=lambda x: (x[0], x[1])):
+        chk.violation(what, rep, tags=tags)
     if have_driver:
         base = len(dlines)
         rejected = sum(1 for d in dout[base:base + len(controls)] if d.startswith("bad"))
         chk.cov["negative_controls"] = {"sent": len(controls), "rejected": rejected}
         if rejected != len(controls):
-            broken.append("the driver accepted %d corrupted steps (negative controls)" % (len(controls) - rejected))
+            acc = [c for c, d in zip(controls, dout[base:base + len(controls)]) if not d.startswith("bad")]
+            broken.append("the driver accepted %d corrupted steps (negative controls), e.g. %s"
+                          % (len(controls) - rejected, acc[0][:300]))
         mal = dout[base + len(controls):base + len(controls) + len(malformed)]
         chk.cov["malformed_lines"] = {"sent": len(malformed), "refused": sum(1 for d in mal if d.startswith("bad"))}
         if any(not d.startswith("bad") for d in mal):
@@ -183,25 +387,57 @@ def run(chk, replay=None):
     chk.cov["holdout_relation_only"] = nrel
     chk.cov["dss_fallback_like_splits"] = nfb
     chk.cov["requests"] = len(reqs)
+    chk.cov["search_sessions"] = len(sreqs)
+    chk.cov["search_observation_pairs"] = nobs
+    chk.cov["search_call_sequences"] = nproto
     if nrel:
         chk.notes.append("%d hold-out calls satisfy the step relation but not the order-exact model "
                          "(the shuffle order changed; conservation/share unaffected)" % nrel)
 
+    # ---- thorough: the 64-bit weight sum, three ways (library debug log, harness, Lean) -----------
+    if chk.tier == "thorough" and not replay and drv_ok:
+        try:
+            exe_d = C.build_harness("c16_validation", "asan-dbg")
+            wreq = ["wsum %d %d" % (rng.between(2, 40), rng.below(1 << 62)) for _ in range(400)]
+            wans, wdeaths = C.run_lines(exe_d, wreq, timeout=900)
+            for idx, rc, se in wdeaths:
+                broken.append("weight-sum harness (asserts on) died on `%s`: %s" % (wreq[idx], se[-400:]))
+            wl = [(q, a) for q, a in zip(wreq, wans) if a.startswith("wsum ") and "skipped" not in a]
+            wout = C.run_driver("c16_driver", ["W | " + a.split(" | ")[1] for _, a in wl])
+            nw = 0
+            for (q, a), d in zip(wl, wout):
+                lib, own = a.split(" | ")[0].split()[1:3]
+                lean = d.split(" s ")[-1].strip()
+                nw += 1
+                chk.seen("W " + a)
+                if not (lib == own == lean):
+                    broken.append("weight sum of `%s`: library %s, harness %s, Lean model %s" % (q, lib, own, lean))
+            chk.cov["weight_sum_three_way"] = {"compared": nw,
+                                               "wrapped": sum(1 for _, a in wl if re.search(r":\d{7,}:", a))}
+        except RuntimeError as e:
+            broken.append("weight-sum harness does not build: %s" % str(e)[-500:])
+
     if broken and not [v for v in chk.violations if not v[2]]:
         for b in broken:
-            chk.violation(b, {"broken": b, "searched": "%d requests / %d observed calls: no call violating the "
-                              "property" % (len(reqs), len(steps))}, no_input=True)
+            chk.violation(b, {"broken": b, "searched": "%d + %d requests / %d observed calls / %d observation pairs: "
+                              "no call violating the property" % (len(reqs), len(sreqs), len(dsteps), nobs)},
+                          no_input=True)
     elif broken:
         chk.notes += broken
     return chk.finish(
         level="proof",
-        checker_cmd="lake build Vita.C16.Props c16_driver && lake env lean <#print axioms for every theorem>",
-        rule="one evaluation = one observed call of init/shake/close on a data set with unique row ids "
-             "(distinct = distinct (call, sets before, sets after)); each is decided by the Lean step relation "
-             "and by the harness's own multiset oracle; hold-out results are additionally compared with the "
-             "model function on the reconstructed draws",
-        trusted=["Lean 4.33 kernel", "harness/c16_validation.cc (observation + canonical ids)",
-                 "std::partition returns a permutation of its input (modelled by specification)",
-                 "target_size: the double computation is a parameter constrained by TsOK; compared with the "
-                 "rational formula by the driver on a range of sizes (test, not proof)",
+        checker_cmd="python3 tools/translate_validation.py && lake build Vita.C16.Props c16_driver && "
+                    "lake env lean <#print axioms for every theorem>",
+        rule="one evaluation = one observed call of init/shake/close (driven directly or made by search::run in a "
+             "monitored src_search session), one pair of consecutive observations of a monitored session, one call "
+             "sequence of a run(k) (distinct = distinct text); each is decided by the Lean relation it belongs to "
+             "and by the harness's own multiset oracle; hold-out results are additionally compared with the model "
+             "function on the reconstructed draws",
+        trusted=["Lean 4.33 kernel", "harness/c16_validation.cc, harness/c16_search.cc (observation + canonical ids)",
+                 "tools/translate_validation.py + clang-14 (syntax extraction; refuses what it does not know)",
+                 "Interp.lean: meaning of the container operations (std::copy/move/erase/iter_swap/for_each by "
+                 "their specifications on vectors, std::partition = some permutation)",
+                 "target_size: the double computation is a parameter constrained by TsOK; the extracted double "
+                 "chain is evaluated in hardware doubles and compared with the rational reading by the driver on a "
+                 "range of sizes (test, not proof)",
                  "g++ 12.2 ASan/UBSan"])
